@@ -252,6 +252,12 @@ func init() {
 			}
 			return mkScalar(sym.Eq(termOf(a[0], false), termOf(a[1], false)), types.Bool)
 		},
+		vxPkg + "Finite": func(fr *frame, a []value) value {
+			if x, ok := a[0].(float64); ok {
+				return !math.IsNaN(x) && !math.IsInf(x, 0)
+			}
+			return true
+		},
 		vxPkg + "ApproxEq": func(fr *frame, a []value) value {
 			if x, ok := a[0].(float64); ok {
 				if y, ok := a[1].(float64); ok {
